@@ -115,7 +115,10 @@ CLAIMED = {
              'n+1 points are produced (and the unrepaired loop is proved short for n=9); the model is compared with the implementation '
              'for all 500 n on every run. Over Q, point_at is proved to be the point at fraction t (squared distance t^2 |v|^2, ends at '
              't=0,1) and split_with_plane is proved to return consecutive collinear pieces meeting on the plane whose direction vectors '
-             'are u v and (1-u) v. Arcs, polylines, subdivide(distances), to_polyline and arc splitting are searched.',
+             'are u v and (1-u) v. The source while-loop of LineSegment2D/3D.subdivide_evenly itself (translated with explicit fuel) is proved, '
+             'for every n >= 1 in exact arithmetic, to return the start point followed by the points at k/n, k = 1..n (the end-point repair '
+             'never fires: short results are purely a rounding effect). Arcs, polylines, subdivide(distances), to_polyline and arc '
+             'splitting (incl. wrap-around arcs cut twice) are searched.',
         note='Trusted: Coq kernel incl. its primitive floats (Print Assumptions lists the PrimFloat/PrimInt63 primitives), hand model '
              'FloatLoops.v + its exhaustive correspondence, py2coq, harness.',
         technique='machine-checked Coq proof: exhaustive vm_compute over the finite stated domain with a bit-exact PrimFloat model, and '
@@ -194,12 +197,15 @@ CLAIMED = {
     'C19': dict(
         text='Partial. Proved in exact arithmetic: (1) offset vertex kernel (hand model SubOffset.v, run corner by corner against '
              'Polygon2D.offset on corners with rational unit directions and rational half angles, convex and reflex): the moved vertex '
-             'is at signed distance exactly d from both adjacent edge lines, inner side for d > 0; (2) perimeter quads (model run '
+             'is at signed distance exactly d from both adjacent edge lines, inner side for d > 0 - and the same for the GENERATED '
+             'Polygon2D.offset (translated from the source): it moves vertex i of a counter-clockwise loop by normalize(rotate(v1,-a)) * d/sin a, '
+             'which is at distance d from both edges under pointwise hypotheses on cos / sin / sqrt at the half angle; (2) perimeter quads (model run '
              'against perimeter_core_by_offset): quads plus inner loop tile the outer loop, signed areas add up for every pair of '
              'n-gons; (3) scaling about a centre (generated Polygon2D.scale): image stays in every half-plane containing centre and '
              'point, area = ratio x original when k*k == ratio, per-piece scaling totals k*k x total; (4) sub-rectangle layout (model '
              'with Python round-half-even, run against Face3D.sub_rects_from_rect_ratio): in every branch areas total ratio x parent, '
-             'the array lies inside the parent, columns / rows do not overlap (ratio <= 0.95). Searched: Polygon2D.offset (convex, d '
+             'the array lies inside the parent, columns / rows do not overlap (ratio <= 0.95); the generated sub_rects_from_rect_ratio is run '
+             'against the same model inside Coq. Searched: Polygon2D.offset (convex, d '
              'up to 0.4 A/P; concave up to 0.2 x feature size; both windings): vertex count, orientation, parallel edges at distance '
              '|d| on the stated side; LineSegment2D / Polyline2D offsets; perimeter_core_by_offset with cw / ccw holes (area '
              'partition, quad shape, inside); sub_faces_by_ratio(_rectangle) on rect / L / gable / trapezoid / convex / holed walls in '
